@@ -61,6 +61,10 @@ def main():
         meta = json.load(open(os.path.join(d, "meta.json"))) if os.path.exists(os.path.join(d, "meta.json")) else {}
         sh(f"cd {ROOT}/repo && git checkout -q -- . && git clean -fdq -e target")
         r = sh(f"cd {ROOT}/repo && git apply {patch}")
+        reb = os.path.join(d, "patch.rebased.diff")
+        if r.returncode != 0 and os.path.exists(reb):
+            # the mutated lines were touched by a later fix: the same slip re-made on the current tree
+            r = sh(f"cd {ROOT}/repo && git apply {reb}")
         if r.returncode != 0:
             print(d, "PATCH DOES NOT APPLY", r.stdout[:300])
             continue
